@@ -25,7 +25,7 @@ for pid in sorted(claims['claims']):
     out.append('| harness | package · entry | bound | outside |\n|---|---|---|---|')
     for h in spec['harnesses']:
         pkg = h.get('pkg', h.get('dir', '')).replace('github.com/gotid/god/', '')
-        out.append(f"| {h['name']} | {pkg} · `{h['entry']}` | {h.get('bounds','')} | {h.get('outside','')} |")
+        out.append(f"| {h['name']} | {pkg} · `{h.get('entry', h.get('kind','-'))}` | {h.get('bounds','')} | {h.get('outside','')} |")
     out.append('')
     if pid in seeds:
         out.append('Seeded changes (independent sub-agents, property text only):\n')
